@@ -3,7 +3,15 @@ package main
 // SplitMix64. The only source of randomness in the simulator. No math/rand (shared
 // state, and its accesses would be visible to the race detector).
 
-type Rng struct{ s uint64 }
+type Rng struct {
+	s      uint64
+	forced bool // sub-stream of the gate named by forceGate: its first Chance is true
+}
+
+// forceGate names one generator gate (a Split label followed by Chance) that is taken for
+// sure while it is set: a cold-start herd puts every worker's document behind the same gate.
+// Set and cleared by the spec generator only, which runs on one goroutine.
+var forceGate string
 
 func mix64(z uint64) uint64 {
 	z = (z ^ (z >> 30)) * 0xbf58476d1ce4e5b9
@@ -35,7 +43,14 @@ func (r *Rng) Range(lo, hi int) int {
 }
 
 // Chance is true with probability num/den.
-func (r *Rng) Chance(num, den int) bool { return r.Intn(den) < num }
+func (r *Rng) Chance(num, den int) bool {
+	v := r.Intn(den) < num // the draw is made either way: the stream after the gate is the same
+	if r.forced {
+		r.forced = false
+		return true
+	}
+	return v
+}
 
 func hashStr(s string) uint64 {
 	h := uint64(0xcbf29ce484222325)
@@ -65,7 +80,7 @@ func hashU64(h uint64, v uint64) uint64 {
 // Split derives an independent sub-stream; shrinking one dimension of a run does not
 // reshuffle the others.
 func (r *Rng) Split(label string) *Rng {
-	return &Rng{s: mix64(r.s ^ hashStr(label))}
+	return &Rng{s: mix64(r.s ^ hashStr(label)), forced: forceGate != "" && label == forceGate}
 }
 
 // runSeed: one integer (VERIF_SEED) + engine + run index decide a run.
